@@ -61,15 +61,27 @@ def _target_fallible(f: FuncInfo, extra=None):
     return make_fallible(Scope(f), iters=set(), calls={'self._target'}, raises=TARGET_RAISES, extra=extra)
 
 
+def _user_class_ctor(node, a):
+    """a call of a class computed from a value (`type(e)(...)`, `e.__class__(...)`) runs a constructor the library does not
+    know: it can fail (UnicodeDecodeError needs five arguments, a user class two) -- user code, like the target"""
+    R = set()
+    for c in calls_in(a):
+        fn = c.func
+        if (isinstance(fn, ast.Call) and dotted(fn.func) == 'type' and len(fn.args) == 1) or (isinstance(fn, ast.Attribute) and fn.attr == '__class__' and not is_name(fn.value, 'self')):
+            R.add('Exception')
+    return R
+
+
 def check_thread_run(ck: Checker, rid: str):
     f = ck.repo.func(THREADING, 'Thread.run')
-    cfg = build_cfg(f, ck.repo, _target_fallible(f))
+    cfg = build_cfg(f, ck.repo, _target_fallible(f, extra=_user_class_ctor))
     ck.analysed_func(f, cfg)
     res = count_minmax(cfg, cfg.entry, _resolves, back='skip')
     bad = []
     for term, (lo, hi) in res.items():
         if term == ('node', cfg.exit_raise):
-            bad.append(f'an exception can leave run() (future resolved {lo}..{hi} times before)')
+            srcs = sorted({cfg.nodes[e.src].lineno for e in cfg.pred[cfg.exit_raise]})
+            bad.append(f'an exception can leave run() from L{srcs} (future resolved {lo}..{hi} times before): join() / result() / exception() then wait for a future nobody resolves')
         elif (lo, hi) != (1, 1):
             bad.append(f'a path ends with the future resolved {lo}..{hi} times')
     ck.paths_examined += len(res)
